@@ -517,6 +517,7 @@ theorem inv_event (post : Facts) (e : Event) (fills : List Query) {s : St} {a : 
   | ret => exact h
   | excAt => exact h
   | call n => exact h
+  | mayRaise n => exact h
 
 theorem inv_path (post : Facts) (es : List Event) (fs : List (List Query)) {s : St} {a : Abs} (h : Inv s a) :
     Inv (execPath true post es fs s) (absPath es a) := by
@@ -538,6 +539,7 @@ theorem inv_path (post : Facts) (es : List Event) (fs : List (List Query)) {s : 
     | ret => exact ih fs (inv_event post _ [] h)
     | excAt => exact ih fs (inv_event post _ [] h)
     | call n => exact ih fs (inv_event post _ [] h)
+    | mayRaise n => exact ih fs (inv_event post _ [] h)
 
 /-- a clean abstract value at the end of a path means the state is `Good` again -/
 theorem good_of_clean {s : St} {a : Abs} (h : Inv s a) (hc : a.clean = true) : Good s := by
@@ -618,6 +620,7 @@ theorem execPath_core (en : Bool) (post : Facts) (es : List Event) (fs : List (L
     | ret => simp only [execPath, corePath]; rw [ih, execEvent_core]
     | excAt => simp only [execPath, corePath]; rw [ih, execEvent_core]
     | call n => simp only [execPath, corePath]; rw [ih, execEvent_core]
+    | mayRaise n => simp only [execPath, corePath]; rw [ih, execEvent_core]
 
 /-- with the cache disabled every query is a recomputation from the current arrays -/
 theorem query_ans_disabled (q : Query) (s : St) : (query false q s).1 = s.core.recompute q := by
@@ -813,5 +816,95 @@ theorem segsOK_expands {segs : List Seg} (h : segsOK segs = true) {es : List Eve
   simp only [segsOK, Bool.and_eq_true] at h
   simp only [pathOK, Bool.and_eq_true]
   exact ⟨(absSegs_top_or segs (Abs.LE.refl _) es he).clean h.1, (absSegs_top_or segs (Abs.LE.refl _) es he).clean h.2⟩
+
+/-! ### exceptional exits -/
+
+theorem exitsOK_append (ex : List String) (es fs : List Event) (a : Abs) :
+    exitsOK ex (es ++ fs) a = (exitsOK ex es a && exitsOK ex fs (absPath es a)) := by
+  induction es generalizing a with
+  | nil => simp [exitsOK, absPath]
+  | cons e es ih =>
+    cases e <;> simp [exitsOK, absPath, ih, absEvent, Bool.and_assoc]
+
+/-- a larger abstract value makes the check harder -/
+theorem exitsOK_anti (ex : List String) (es : List Event) {a b : Abs} (h : Abs.LE a b)
+    (hb : exitsOK ex es b = true) : exitsOK ex es a = true := by
+  induction es generalizing a b with
+  | nil => rfl
+  | cons e es ih =>
+    cases e with
+    | mayRaise site =>
+      simp only [exitsOK, Bool.and_eq_true, Bool.or_eq_true] at hb ⊢
+      refine ⟨?_, ih h hb.2⟩
+      rcases hb.1 with c | c
+      · exact Or.inl c
+      · exact Or.inr (h.clean c)
+    | _ => exact ih (absEvent_mono _ h) hb
+
+/-- at a non-exempt `mayRaise` point of a path that passes the check, the prefix executed so far leaves
+    nothing stale -/
+theorem exitsOK_prefix (ex : List String) (pre rest : List Event) (site : String) (a : Abs)
+    (h : exitsOK ex (pre ++ .mayRaise site :: rest) a = true) (hs : ex.contains site = false) :
+    (absPath pre a).clean = true := by
+  rw [exitsOK_append] at h
+  simp only [exitsOK, Bool.and_eq_true, Bool.or_eq_true, hs] at h
+  rcases h.2.1 with c | c
+  · exact absurd c (by simp)
+  · exact c
+
+theorem pathExitsOK_prefix (ex : List String) (pre rest : List Event) (site : String)
+    (h : pathExitsOK ex (pre ++ .mayRaise site :: rest) = true) (hs : ex.contains site = false) :
+    pathOK pre = true := by
+  simp only [pathExitsOK, Bool.and_eq_true] at h
+  simp only [pathOK, Bool.and_eq_true]
+  exact ⟨exitsOK_prefix ex pre rest site _ h.1 hs, exitsOK_prefix ex pre rest site _ h.2 hs⟩
+
+/-- the value computed for a loop segment is above the entry value and is a post-fixpoint of every body -/
+theorem loop_postfix (alts : List (List Event)) (b : Abs) :
+    Abs.LE b (absSeg ⟨true, alts⟩ b) ∧
+    ∀ es ∈ alts, Abs.LE (absPath es (absSeg ⟨true, alts⟩ b)) (absSeg ⟨true, alts⟩ b) := by
+  simp only [absSeg]
+  cases hc : (alts.all fun es => (absPath es (absIter 16 alts b)).le (absIter 16 alts b)) with
+  | false => exact ⟨Abs.LE.top _, fun es _ => Abs.LE.top _⟩
+  | true =>
+    exact ⟨absIter_ge 16 alts b, fun es hes => (Abs.le_iff _ _).mp (List.all_eq_true.mp hc es hes)⟩
+
+theorem iters_exits {ex : List String} {alts : List (List Event)} {x : Abs}
+    (hx : ∀ es ∈ alts, Abs.LE (absPath es x) x) (hex : ∀ es ∈ alts, exitsOK ex es x = true)
+    (iters : List (List Event)) (hi : ∀ b ∈ iters, b ∈ alts) {a : Abs} (ha : Abs.LE a x) :
+    exitsOK ex iters.flatten a = true := by
+  induction iters generalizing a with
+  | nil => rfl
+  | cons b iters ih =>
+    simp only [List.flatten_cons, exitsOK_append, Bool.and_eq_true]
+    have hb := hi b List.mem_cons_self
+    exact ⟨exitsOK_anti ex b ha (hex b hb),
+      ih (fun c hc => hi c (List.mem_cons_of_mem _ hc)) ((absPath_mono b ha).trans (hx b hb))⟩
+
+/-- every exceptional exit of every unrolling of a segmented path that passes the check is clean -/
+theorem segsExits_expands (ex : List String) {segs : List Seg} {es : List Event} (he : Expands segs es)
+    {a b : Abs} (h : Abs.LE a b) (hc : segsExitsOK ex segs b = true) : exitsOK ex es a = true := by
+  induction he generalizing a b with
+  | nil => rfl
+  | @straight es rest segs _ ih =>
+    simp only [segsExitsOK, segExitsOK, Bool.and_eq_true] at hc
+    rw [exitsOK_append, Bool.and_eq_true]
+    exact ⟨exitsOK_anti ex es h hc.1, ih (absPath_mono es h) hc.2⟩
+  | @loop alts iters rest segs hi _ ih =>
+    simp only [segsExitsOK, segExitsOK, Bool.and_eq_true] at hc
+    obtain ⟨hge, hpost⟩ := loop_postfix alts b
+    have hex : ∀ es ∈ alts, exitsOK ex es (absSeg ⟨true, alts⟩ b) = true :=
+      fun es hes => List.all_eq_true.mp hc.1 es hes
+    rw [exitsOK_append, Bool.and_eq_true]
+    exact ⟨iters_exits hpost hex iters hi (h.trans hge),
+      ih (iters_below hpost iters hi (h.trans hge)) hc.2⟩
+
+theorem segsAllExits_prefix (ex : List String) {segs : List Seg} {pre rest : List Event} {site : String}
+    (hc : segsAllExitsOK ex segs = true) (he : Expands segs (pre ++ .mayRaise site :: rest))
+    (hs : ex.contains site = false) : pathOK pre = true := by
+  simp only [segsAllExitsOK, Bool.and_eq_true] at hc
+  apply pathExitsOK_prefix ex pre rest site _ hs
+  simp only [pathExitsOK, Bool.and_eq_true]
+  exact ⟨segsExits_expands ex he (Abs.LE.refl _) hc.1, segsExits_expands ex he (Abs.LE.refl _) hc.2⟩
 
 end PMV.Cache
